@@ -46,6 +46,9 @@ impl FencedString {
 
     pub(crate) fn substring(&self, start: usize, end: Option<usize>) -> Self {
         if self.char_starts.is_empty() {
+            if start >= self.buffer.len() {
+                return Self::default();
+            }
             Self {
                 buffer: (match end {
                     Some(end) if end < self.len() => self.buffer[start..end].to_string(),
@@ -54,6 +57,10 @@ impl FencedString {
                 char_starts: Vec::new(),
             }
         } else {
+            if start >= self.char_starts.len() {
+                // an empty slice at (or past) the end
+                return Self::default();
+            }
             let start_byte = self.char_starts[start];
             let end_byte = end.and_then(|e| self.char_starts.get(e)).cloned();
             if let Some(end_byte) = end_byte {
@@ -78,11 +85,17 @@ impl FencedString {
 
     pub(crate) fn substr(&self, start: usize, end: Option<usize>) -> &str {
         if self.char_starts.is_empty() {
+            if start >= self.buffer.len() {
+                return "";
+            }
             match end {
                 Some(end) if end < self.len() => &self.buffer[start..end],
                 _ => &self.buffer[start..],
             }
         } else {
+            if start >= self.char_starts.len() {
+                return "";
+            }
             let start_byte = self.char_starts[start];
             let end_byte = end.and_then(|e| self.char_starts.get(e)).cloned();
             if let Some(end_byte) = end_byte {
